@@ -15,6 +15,8 @@ import LLRP.Oracle.C07
 import LLRP.Oracle.C03
 import LLRP.Oracle.C09
 import LLRP.Oracle.C08
+import LLRP.Oracle.C04
+import LLRP.Oracle.C10
 /-!
 `oracle`: line-protocol driver of the executable models (one request per line on stdin, one reply per line on
 stdout). Imports only `LLRP.Model.*`, `LLRP.Gen.*` and `LLRP.Oracle.*` (never Mathlib, never proofs) so that it
@@ -39,7 +41,9 @@ def handlers : List Handler := [
   handleC07,
   handleC03,
   handleC09,
-  handleC08
+  handleC08,
+  handleC04,
+  handleC10
 ]
 
 def handle (line : String) : String :=
